@@ -62,6 +62,8 @@ def main():
     ts_bad = tlc("ThreadSpawn", cfg="ThreadSpawn_FALSE.cfg", workers=4, timeout=600)
     if ts_bad["rc"] == 0:
         raise common.MachineryError("the spawn model does not refute a non-atomic identifier counter")
+    # for ANY number of concurrent spawners (TLC checks four): the proof system checks that the invariant is inductive
+    proof = common.tlapm("ThreadSpawnProof") if tier != "quick" else None
     wd = common.scratch("c15-")
     recs, owner = [], []
     try:
@@ -359,7 +361,7 @@ def main():
     finally:
         shutil.rmtree(wd, ignore_errors=True)
     cov = {"states": ts_ok["distinct"] + ts_bad["distinct"] + jr["distinct"], "transitions": ts_ok["generated"] + ts_bad["generated"] + jr["generated"],
-           "traces_validated_against_impl": len(recs),
+           "traces_validated_against_impl": len(recs), "proof_ThreadSpawnProof": proof,
            "samples": [r for r in recs if r["kind"] in ("clock", "random", "spawn")][:3] + [{"argv": [x.hex() for x in cfgs[0][0]], "env": [x.hex() for x in cfgs[0][1]]}],
            "evaluations": len(recs) + compared, "distinct_nontrivial": len({json.dumps(r, sort_keys=True) for r in recs}),
            "rule": "args/env: vectors of 0..3 strings of length {0,1,2,7,255} with bytes incl. >= 0x80, one process each: sizes and the exact bytes "
